@@ -35,7 +35,7 @@ pub mod iterators;
 use std::vec::Vec;
 
 use crate::core_iterators::*;
-use crate::store::{Index, Position, Store};
+use crate::store::{Hole, Index, Position, Store};
 use crate::TryReserveError;
 use iterators::*;
 
@@ -46,6 +46,8 @@ use std::collections::hash_map::RandomState;
 use std::hash::{BuildHasher, Hash};
 use std::iter::{Extend, FromIterator, IntoIterator, Iterator};
 use std::mem::replace;
+
+use indexmap::IndexMap;
 
 /// A double priority queue with efficient change function to change the priority of an
 /// element.
@@ -576,8 +578,8 @@ where
         // add the new element in the qp vector as the last in the heap
         self.store.qp.push(Position(i));
         self.store.heap.push(Index(i));
-        self.bubble_up(Position(i), Index(i));
         self.store.size += 1;
+        self.bubble_up(Position(i), Index(i));
         None
     }
 
@@ -903,81 +905,38 @@ where
         }
     }
 
-    fn bubble_up(&mut self, mut position: Position, map_position: Index) -> Position {
-        let priority = self.store.map.get_index(map_position.0).unwrap().1;
+    fn bubble_up(&mut self, position: Position, map_position: Index) -> Position {
+        let Store { map, heap, qp, .. } = &mut self.store;
+        let priority = map.get_index(map_position.0).unwrap().1;
+        // SAFETY: `position` and `map_position` are a valid heap position and
+        // a valid map index. The hole is filled again when `hole` goes out of
+        // scope, also if a comparison panics.
+        let mut hole = unsafe { Hole::new(heap, qp, position, map_position) };
         if position.0 > 0 {
             let parent = parent(position);
-            let parent_priority = unsafe { self.store.get_priority_from_position(parent) };
-            let parent_index = unsafe { *self.store.heap.get_unchecked(parent.0) };
-            position = match (level(position) % 2 == 0, parent_priority < priority) {
+            // SAFETY: the parent of a valid position, different from the hole
+            let parent_index = unsafe { hole.index_at(parent) };
+            let parent_priority = map.get_index(parent_index.0).unwrap().1;
+            match (level(position) % 2 == 0, parent_priority < priority) {
                 // on a min level and greater then parent
                 (true, true) => {
-                    unsafe {
-                        *self.store.heap.get_unchecked_mut(position.0) = parent_index;
-                        *self.store.qp.get_unchecked_mut(parent_index.0) = position;
-                    }
-                    self.bubble_up_max(parent, map_position)
+                    // SAFETY: as above
+                    unsafe { hole.move_from(parent) };
+                    bubble_up_max(map, &mut hole, priority)
                 }
                 // on a min level and less then parent
-                (true, false) => self.bubble_up_min(position, map_position),
+                (true, false) => bubble_up_min(map, &mut hole, priority),
                 // on a max level and greater then parent
-                (false, true) => self.bubble_up_max(position, map_position),
+                (false, true) => bubble_up_max(map, &mut hole, priority),
                 // on a max level and less then parent
                 (false, false) => {
-                    unsafe {
-                        *self.store.heap.get_unchecked_mut(position.0) = parent_index;
-                        *self.store.qp.get_unchecked_mut(parent_index.0) = position;
-                    }
-                    self.bubble_up_min(parent, map_position)
+                    // SAFETY: as above
+                    unsafe { hole.move_from(parent) };
+                    bubble_up_min(map, &mut hole, priority)
                 }
             }
         }
-
-        unsafe {
-            // put the new element into the heap and
-            // update the qp translation table and the size
-            *self.store.heap.get_unchecked_mut(position.0) = map_position;
-            *self.store.qp.get_unchecked_mut(map_position.0) = position;
-        }
-        position
-    }
-
-    fn bubble_up_min(&mut self, mut position: Position, map_position: Index) -> Position {
-        let priority = self.store.map.get_index(map_position.0).unwrap().1;
-        let mut grand_parent = Position(0);
-        while if position.0 > 0 && parent(position).0 > 0 {
-            grand_parent = parent(parent(position));
-            (unsafe { self.store.get_priority_from_position(grand_parent) }) > priority
-        } else {
-            false
-        } {
-            unsafe {
-                let grand_parent_index = *self.store.heap.get_unchecked(grand_parent.0);
-                *self.store.heap.get_unchecked_mut(position.0) = grand_parent_index;
-                *self.store.qp.get_unchecked_mut(grand_parent_index.0) = position;
-            }
-            position = grand_parent;
-        }
-        position
-    }
-
-    fn bubble_up_max(&mut self, mut position: Position, map_position: Index) -> Position {
-        let priority = self.store.map.get_index(map_position.0).unwrap().1;
-        let mut grand_parent = Position(0);
-        while if position.0 > 0 && parent(position).0 > 0 {
-            grand_parent = parent(parent(position));
-            (unsafe { self.store.get_priority_from_position(grand_parent) }) < priority
-        } else {
-            false
-        } {
-            unsafe {
-                let grand_parent_index = *self.store.heap.get_unchecked(grand_parent.0);
-                *self.store.heap.get_unchecked_mut(position.0) = grand_parent_index;
-                *self.store.qp.get_unchecked_mut(grand_parent_index.0) = position;
-            }
-            position = grand_parent;
-        }
-        position
+        hole.position()
     }
 
     fn up_heapify(&mut self, i: Position) {
@@ -1166,6 +1125,42 @@ where
 {
     fn eq(&self, other: &DoublePriorityQueue<I, P2, H2>) -> bool {
         self.store == other.store
+    }
+}
+
+/// Moves the hole up, grandparent by grandparent, as long as the
+/// grandparent is greater than `priority`
+fn bubble_up_min<I, P, H>(map: &IndexMap<I, P, H>, hole: &mut Hole<'_>, priority: &P)
+where
+    P: Ord,
+{
+    while hole.position().0 > 0 && parent(hole.position()).0 > 0 {
+        let grand_parent = parent(parent(hole.position()));
+        // SAFETY: the grandparent of a valid position, different from the hole
+        let grand_parent_index = unsafe { hole.index_at(grand_parent) };
+        if !(map.get_index(grand_parent_index.0).unwrap().1 > priority) {
+            break;
+        }
+        // SAFETY: as above
+        unsafe { hole.move_from(grand_parent) };
+    }
+}
+
+/// Moves the hole up, grandparent by grandparent, as long as the
+/// grandparent is less than `priority`
+fn bubble_up_max<I, P, H>(map: &IndexMap<I, P, H>, hole: &mut Hole<'_>, priority: &P)
+where
+    P: Ord,
+{
+    while hole.position().0 > 0 && parent(hole.position()).0 > 0 {
+        let grand_parent = parent(parent(hole.position()));
+        // SAFETY: the grandparent of a valid position, different from the hole
+        let grand_parent_index = unsafe { hole.index_at(grand_parent) };
+        if !(map.get_index(grand_parent_index.0).unwrap().1 < priority) {
+            break;
+        }
+        // SAFETY: as above
+        unsafe { hole.move_from(grand_parent) };
     }
 }
 
